@@ -597,7 +597,7 @@ def run_job(prop, prop_mod, harness, cfg, tier, seed, known_pass=None):
             % json.dumps(rec["unreproduced"][:2], default=str)[:600]
         )
     st = eng.stats.as_dict()
-    if st["paths"] - st["aborted_paths"] <= 0 and rec["status"] == "ok":
+    if st["paths"] - st["aborted_paths"] <= 0 and rec["status"] == "ok" and known_pass is None:
         rec["status"] = "inconclusive"
         rec["messages"].append("vacuous: no feasible path reached the claims")
     rec["stats"] = st
